@@ -389,7 +389,155 @@ theorem joinOnRows_semi_anti (e : Expr) (ln rn : Nat) (ls rs semi anti : List Ro
   rw [List.length_zip, Nat.min_eq_left hlen] at h3
   exact ⟨h1, h2, h3⟩
 
-theorem union_consistent (d : DF) (other : DF) (h : d.Consistent) (ho : other.Consistent) :
+/-- a `mapM` in `Except` succeeds exactly when the function succeeds on every element -/
+theorem mapM_ok_iff {ε α β : Type} (f : α → Except ε β) (l : List α) :
+    (∃ out, l.mapM f = .ok out) ↔ ∀ x ∈ l, ∃ y, f x = .ok y := by
+  induction l with
+  | nil => exact ⟨fun _ x hx => (by cases hx), fun _ => ⟨[], by rw [List.mapM_nil]; rfl⟩⟩
+  | cons x xs ih =>
+    constructor
+    · rintro ⟨out, h⟩
+      rw [List.mapM_cons] at h
+      obtain ⟨y, hy, h⟩ := bind_ok h
+      obtain ⟨ys, hys, h⟩ := bind_ok h
+      intro z hz
+      rcases List.mem_cons.mp hz with rfl | hz
+      · exact ⟨y, hy⟩
+      · exact ih.mp ⟨ys, hys⟩ z hz
+    · intro h
+      obtain ⟨y, hy⟩ := h x List.mem_cons_self
+      obtain ⟨ys, hys⟩ := ih.mpr fun z hz => h z (List.mem_cons_of_mem _ hz)
+      exact ⟨y :: ys, by rw [List.mapM_cons, hy, hys]; rfl⟩
+
+/-- a successful `mapM` of a function that agrees with a pure one is the `map` of the pure one -/
+theorem mapM_ok_eq_map {ε α β : Type} {f : α → Except ε β} {g : α → β}
+    (hfg : ∀ x y, f x = .ok y → g x = y) : ∀ (l : List α) (out : List β), l.mapM f = .ok out → out = l.map g := by
+  intro l
+  induction l with
+  | nil =>
+    intro out h
+    rw [List.mapM_nil] at h
+    cases pure_ok h
+    rfl
+  | cons x xs ih =>
+    intro out h
+    rw [List.mapM_cons] at h
+    obtain ⟨y, hy, h⟩ := bind_ok h
+    obtain ⟨ys, hys, h⟩ := bind_ok h
+    cases pure_ok h
+    rw [List.map_cons, hfg x y hy, ← ih ys hys]
+
+/-- the match matrix of a successful join, given a pure test that agrees with the condition where it evaluates -/
+theorem matrix_eq_map {e : Expr} {ls rs : List Row} {m : List (List Bool)} (p : Row → Row → Bool)
+    (hp : ∀ l r b, condHolds e l r = .ok b → p l r = b)
+    (hm : (ls.mapM fun l => rs.mapM fun r => condHolds e l r) = .ok m) :
+    m = ls.map fun l => rs.map (p l) :=
+  mapM_ok_eq_map (fun l ms h => (mapM_ok_eq_map (hp l) rs ms h).symm) ls m hm
+
+/-- `joinOnRows` is defined exactly when the match matrix is -/
+theorem joinOnRows_defined_iff (how : How) (e : Expr) (ln rn : Nat) (ls rs : List Row) :
+    (∃ out, joinOnRows how e ln rn ls rs = .ok out) ↔
+      ∃ m, (ls.mapM fun l => rs.mapM fun r => condHolds e l r) = .ok m := by
+  constructor
+  · rintro ⟨out, h⟩
+    obtain ⟨m, hm, _⟩ := joinOnRows_ok h
+    exact ⟨m, hm⟩
+  · rintro ⟨m, hm⟩
+    unfold joinOnRows
+    rw [hm]
+    exact ⟨_, rfl⟩
+
+theorem zip_map_flatMap {α β γ : Type} (F : α → β) (G : α × β → List γ) (l : List α) :
+    (l.zip (l.map F)).flatMap G = l.flatMap fun x => G (x, F x) := by
+  induction l with
+  | nil => rfl
+  | cons x xs ih => simp only [List.map_cons, List.zip_cons_cons, List.flatMap_cons, ih]
+
+/-- selecting by a row of tests computed with `map` is `filter` -/
+theorem zip_map_filterMap {α : Type} (p : α → Bool) (l : List α) :
+    (l.zip (l.map p)).filterMap (fun (x : α × Bool) => if x.2 then some x.1 else none) = l.filter p := by
+  induction l with
+  | nil => rfl
+  | cons x xs ih =>
+    simp only [List.map_cons, List.zip_cons_cons, List.filterMap_cons, List.filter_cons, ih]
+    cases p x <;> simp
+
+/-- dropping by a test on the position that agrees with a test on the element is `filter` -/
+theorem zipIdx_filterMap_eq {α β : Type} (q : Nat → Bool) (p : α → Bool) (f : α → β) :
+    ∀ (l : List α) (n : Nat), (∀ j (h : j < l.length), q (n + j) = p l[j]) →
+      (l.zipIdx n).filterMap (fun (x : α × Nat) => if q x.2 then none else some (f x.1)) =
+        (l.filter fun a => !p a).map f := by
+  intro l
+  induction l with
+  | nil => intros; rfl
+  | cons a as ih =>
+    intro n h
+    have h0 : q n = p a := h 0 (Nat.zero_lt_succ _)
+    have ih' := ih (n + 1) (fun j hj => by
+      have := h (j + 1) (Nat.succ_lt_succ hj)
+      rw [List.getElem_cons_succ] at this
+      rw [← this]
+      congr 1
+      omega)
+    rw [List.zipIdx_cons, List.filterMap_cons, List.filter_cons, ih']
+    simp only [h0]
+    cases p a <;> simp
+
+theorem flatMap_ite_singleton {α : Type} (c : α → Bool) (l : List α) :
+    (l.flatMap fun x => if c x then [x] else []) = l.filter c := by
+  induction l with
+  | nil => rfl
+  | cons x xs ih =>
+    rw [List.flatMap_cons, List.filter_cons, ih]
+    cases c x <;> simp
+
+theorem filter_isEmpty_eq {α : Type} (p : α → Bool) (l : List α) : (l.filter p).isEmpty = !l.any p := by
+  induction l with
+  | nil => rfl
+  | cons x xs ih =>
+    rw [List.filter_cons, List.any_cons]
+    cases p x
+    · simpa using ih
+    · simp
+
+/-- a successful join on a condition as a pure nested loop over any test that agrees with the condition where it
+evaluates: the per-left-row part, then (right, full) the null-padded right rows no left row matches -/
+theorem joinOnRows_ok_pure {how : How} {e : Expr} {ln rn : Nat} {ls rs out : List Row} (p : Row → Row → Bool)
+    (hp : ∀ l r b, condHolds e l r = .ok b → p l r = b)
+    (h : joinOnRows how e ln rn ls rs = .ok out) :
+    out = (ls.flatMap fun l => joinOnLeft how rn l (rs.filter (p l))) ++
+      (match how with
+        | .right | .full => (rs.filter fun r => ls.all fun l => !p l r).map (nullRow ln ++ ·)
+        | _ => []) := by
+  obtain ⟨m, hm, rfl⟩ := joinOnRows_ok h
+  cases matrix_eq_map p hp hm
+  have hper : ((ls.zip (ls.map fun l => rs.map (p l))).flatMap fun (x : Row × List Bool) =>
+      joinOnLeft how rn x.1 ((rs.zip x.2).filterMap fun (y : Row × Bool) => if y.2 then some y.1 else none)) =
+      ls.flatMap fun l => joinOnLeft how rn l (rs.filter (p l)) :=
+    (zip_map_flatMap _ _ ls).trans
+      (congrArg (fun g => ls.flatMap g) (funext fun l => congrArg (joinOnLeft how rn l) (zip_map_filterMap (p l) rs)))
+  have hun : (rs.zipIdx.filterMap fun (x : Row × Nat) =>
+      if (ls.map fun l => rs.map (p l)).any (fun ms => ms.getD x.2 false) then none else some (nullRow ln ++ x.1)) =
+      (rs.filter fun r => ls.all fun l => !p l r).map (nullRow ln ++ ·) := by
+    have := zipIdx_filterMap_eq (fun j => (ls.map fun l => rs.map (p l)).any (fun ms => ms.getD j false))
+      (fun r => ls.any fun l => p l r) (nullRow ln ++ ·) rs 0 (fun j hj => by
+        rw [Nat.zero_add, List.any_map]
+        congr 1
+        funext l
+        simp [Function.comp, hj])
+    have hnot : (fun a => !ls.any fun l => p l a) = fun r => ls.all fun l => !p l r := by
+      funext r
+      exact List.not_any_eq_all_not
+    rw [this, hnot]
+  cases how with
+  | right => exact (congrArg₂ (· ++ ·) hper hun)
+  | full => exact (congrArg₂ (· ++ ·) hper hun)
+  | inner => exact hper.trans (List.append_nil _).symm
+  | left => exact hper.trans (List.append_nil _).symm
+  | semi => exact hper.trans (List.append_nil _).symm
+  | anti => exact hper.trans (List.append_nil _).symm
+
+theorem union_consistent(d : DF) (other : DF) (h : d.Consistent) (ho : other.Consistent) :
     Agree d (.union other) := by
   intro ns rs hn hr r hmem
   simp only [opNames] at hn
